@@ -137,8 +137,37 @@ def run(ctx, rep):
 def alloc_guard(an, cs):
     """vec::from_elem(x, n): n is the length of the requested range and `range.end <= stream_len` holds at the allocation
     (written as `if end > stream_len { Err }`, `(end <= stream_len).then_some(..).ok_or(..)?`, `stream_len.checked_sub(end)` is Some, ...)"""
+    g = _alloc_guard_n(an, cs.args[1], cs.facts)
+    if g:
+        return g
+    # the size is (computed from) a parameter of a private helper (`fetch(start, len)`): the bound is established by its callers
+    F = an.F
+    fn = an.fn
+    if fn.get("reachable_pub") or not any(x.op == "param" for x in cs.args[1].subterms()):
+        return None
+    from ..engine import program, State
+    prog = program(F)
+    n_sites = 0
+    for cfn in stream_fns(F):
+        can = analyze_fn(F, cfn)
+        for c in can.calls():
+            if (c.callee.get("resolved_id") or c.callee.get("id")) != fn["id"] or c.block not in can.entry:
+                continue
+            try:
+                n2 = prog.subst(can, State(can.exit_env.get(c.block, {}), c.facts), cs.args[1], c.arg_values())
+            except KeyError:
+                n2 = None
+            if n2 is None or not _alloc_guard_n(can, n2, c.facts):
+                return None
+            n_sites += 1
+    if n_sites:
+        return "len <= range.end <= self.stream_len at each of the %d call sites of this helper (size passed as a parameter)" % n_sites
+    return None
+
+
+def _alloc_guard_n(an, n, facts):
     from ..prover import Prover
-    n = cs.args[1]
+    cs = type("S", (), {"facts": facts})()
     r = None
     if n.op == "call" and n.args[0] == "iter::ExactSizeIterator::len":
         r = n.args[2][0]
